@@ -358,6 +358,7 @@ func c10Gen(cfg c08srvCfg, seed []string, alpha []c08srvEv, maxDepth int, enforc
 // Runner
 
 type c10sResult struct {
+	trace            []string
 	applied, skipped int
 	dataSent         int
 	wuSeen           int
@@ -420,6 +421,7 @@ func c10srvRunCase(w *vx.W, t testing.TB, cs c08srvCase, mode c10sMode) (res c10
 			if f.Type == FrameSettings && !f.Ack {
 				env.writeErr(env.st.fr.WriteSettingsAck())
 			}
+			res.trace = append(res.trace, f.String())
 			onFrame(f, ctx)
 		}
 		if env.wireErr != "" {
@@ -825,6 +827,9 @@ func c10srvCheck(c *vx.Ctx, mode c10sMode) func(w *vx.W, cs c08srvCase) {
 			res, herr = c10srvRunCase(w, t, cs, mode)
 			return herr
 		})
+		c.AddStates(1)
+		c.AddTraces(1)
+		c.AddTransitions(int64(res.applied))
 		if res.dataSent > 0 {
 			w.Nontrivial()
 		}
@@ -889,7 +894,7 @@ func c10srvRunParts(c *vx.Ctx, mode c10sMode, parts []c10srvPart) {
 	for _, p := range parts {
 		p := p
 		completed := 0
-		vx.Enumerate(c, p.name, vx.Opts{Serial: true},
+		vx.Enumerate(c, p.name, vx.Opts{Serial: true, Crumb: true},
 			func(yield func(c08srvCase) bool) {
 				c10Gen(p.cfg, p.seed, p.alpha, p.depth, mode.enforce, func(d int) { completed = d }, yield)
 			},
